@@ -93,7 +93,9 @@ impl Profile {
             }
             "C04" => {
                 p.lazy_parser_pm = 850;
-                p.fail_fast_pm = 0;
+                // (termination is owed under fail-fast as well: what arrives or is re-queued after the
+                // trip must not keep the loop alive)
+                p.fail_fast_pm = 250;
                 p.retry_delay_pm = 600;
             }
             "C05" => {
